@@ -35,9 +35,36 @@ NO_COLON_OPS = {'equ', 'set', '=', ':=', 'macro', 'function', 'struct', 'union',
                 'elsecase', 'endcase', 'ifdef', 'ifndef', 'elseif', 'exitm', 'shift', 'endexpect', 'expect'}
 
 
+SUPP_DIR = os.path.join(os.path.dirname(os.path.dirname(os.path.dirname(os.path.abspath(__file__)))), 'corpus', 'c16')
+
+
+def supplements():
+    return sorted(n[:-4] for n in os.listdir(SUPP_DIR) if n.endswith('.asm'))
+
+
 def plan(tier, seed):
     k = 1 if tier == 'quick' else 12
-    return [{'prog': n, 'cls': c, 'k': k} for n in corpus.names() for c in CLASSES]
+    cases = [{'prog': n, 'cls': c, 'k': k} for n in corpus.names() for c in CLASSES]
+    # supplementary sources with label kinds the golden corpus lacks (dot-locals under mixed-case globals, temporaries, structures,
+    # macro-local labels, conditionals); no recorded image exists for them, the unrewritten source assembled by the same binary is the reference
+    cases += [{'supp': n, 'cls': c, 'k': 3 * k} for n in supplements() for c in CLASSES + ['wrap+symcase']]
+    return cases
+
+
+class SuppProg:
+    def __init__(self, name):
+        self.name = name
+        self.dir = SUPP_DIR
+        self.asm = os.path.join(SUPP_DIR, name + '.asm')
+        self.flags = []
+
+    def source(self):
+        with open(self.asm, 'rb') as f:
+            return f.read()
+
+    def stage(self, dest):
+        import shutil
+        shutil.copy(self.asm, os.path.join(dest, self.name + '.asm'))
 
 
 def plain(line):
@@ -107,6 +134,8 @@ def rewrite(lines, cls, rng, in_macro_flags, symbols=frozenset()):
                                           'public', 'global', 'forward'):
                 lab, w1, op, w2, rest = f
                 rest2 = IDENT.sub(lambda m: rcase(rng, m.group(0)) if m.group(0).upper() in symbols else m.group(0), rest)
+                if lab.rstrip(':').upper() in symbols and re.match(r'^[A-Za-z_][A-Za-z0-9_]*:?$', lab):
+                    lab = rcase(rng, lab)
                 new = lab + w1 + op + w2 + rest2 + line[cp:]
         elif c == 'blanks' and plain(line) and rng.random() < 0.7:
             cp = cut_comment(line)
@@ -156,11 +185,21 @@ def macro_flags(lines):
 
 def run_case(case, ctx):
     out = ctx.out
-    prog = corpus.Prog(case['prog'])
     cls = case['cls']
+    if 'supp' in case:
+        prog = SuppProg(case['supp'])
+        prog.stage(ctx.dir)
+        r0 = ctx.run('asl', [prog.name + '.asm', '-o', prog.name + '.p', '-q'], timeout=60)
+        r1 = ctx.run('p2bin', [prog.name, '-q', '-k', '-l', '0', '-r', '0x-0x'], timeout=60)
+        ori = ctx.read(prog.name + '.bin')
+        if r0.rc != 0 or r1.rc != 0 or not ori:
+            out.violate('supplementary-source-fails:' + prog.name, 'rc=%s %s' % (r0.rc, r0.text()[-300:]))
+            return
+    else:
+        prog = corpus.Prog(case['prog'])
+        ori = prog.ori_bytes()
     raw = prog.source()
     text = raw.decode('latin-1')
-    ori = prog.ori_bytes()
     out.sample = {'program': prog.name, 'class': cls}
     if LAYOUT_SENSITIVE.search(text) and cls in ('comments', 'include', 'macrowrap', 'mixed'):
         out.obs['skipped_layout_sensitive'] += 1
@@ -170,7 +209,7 @@ def run_case(case, ctx):
         lines.pop()
     flags = macro_flags(lines)
     symbols = frozenset()
-    if cls == 'symcase':
+    if cls in ('symcase', 'wrap+symcase'):
         # which identifiers are symbols (and not register names, keywords, ...) is taken from the
         # final symbol table of the unmodified program (hook trace 'S' events)
         from .. import asl as _asl
@@ -207,6 +246,10 @@ def run_case(case, ctx):
             ctx.write('zz_body.inc', ('\n'.join(lines) + '\n').encode('latin-1'))
             data = b'\tinclude\t"zz_body.inc"\n'
             nchg = len(lines)
+        elif cls == 'wrap+symcase':
+            new, nchg = rewrite(lines, 'symcase', rng, flags, symbols)
+            data = ('zzwrap\tmacro\n' + '\n'.join(new) + '\n\tendm\n\tzzwrap\n').encode('latin-1')
+            nchg += 1
         elif cls == 'macrowrap':
             if re.search(r'^\S*\s+(end)\b', text, re.I | re.M):
                 # END inside a macro body would end the assembly inside the expansion: manual silent -> not generated
